@@ -264,6 +264,8 @@ class ResponseHandler(BaseProtocol, DataQueue[tuple[RawResponseMessage, StreamRe
     ) -> None:
         self._skip_payload = skip_payload
         self._idle = False
+        # a new exchange starts: the payload of the previous one is history
+        self._payload = None
 
         self._read_timeout = read_timeout
 
@@ -305,6 +307,13 @@ class ResponseHandler(BaseProtocol, DataQueue[tuple[RawResponseMessage, StreamRe
             self._read_timeout_handle = None
 
     def start_timeout(self) -> None:
+        payload = self._payload
+        if payload is not None and self._payload_parser is None and payload.is_eof():
+            # The response to this request has already been received completely
+            # (it arrived before the request body was sent): nothing more is
+            # expected to be read, a timer armed now would fire on the idle
+            # connection after it was released to the pool.
+            return
         self._reschedule_timeout()
 
     @property
